@@ -38,6 +38,9 @@ REG = {
  'C12': ('model_checking', 'TLA+ pipeline model with re-subscription enumerated by TLC; replay incl. interleaved subscriptions and shared operator values',
          'Pipeline.tla re-subscribes the same pipeline object after the first subscription closed and requires fresh stage state; TLC enumerates all such behaviours; the replayer additionally steps two subscriptions of one pipeline alternately and applies one operator value to two sources; laziness: the source subscribe counter is compared after construction and after every step.',
          'bounded: two subscriptions, scripts <= 3-5, chains <= 2; multi-source operators are covered by the OpsMulti part once built', '6/C12'),
+ 'C05': ('model_checking', 'TLA+ reference semantics of multi-source operators (Multi.tla): every tuple of source scripts x every arrival order enumerated by TLC; replay on the real operators',
+         'Multi.tla defines one arrival processed to quiescence for merge / combine-latest / zip / race / take-until / skip-until / buffer-when / sample-when / throttle-when (creation and operator forms, 2-3 sources); the nondeterministic choice of the emitting source makes TLC enumerate EVERY interleaving of the source scripts; each behaviour is replayed over controllable sources and output, IsClosed and per-source subscribe/teardown counters are compared after each arrival. The concurrent clause is exercised by the park-mode schedule replay and free-running drivers of C01/C02 (grammar/overlap) only.',
+         'sequential clause exhaustive within bounds (<= 3 notifications per source); concurrent clause: only contract-level oracles so far; concat/flat-map/group-by/window-when not yet in Multi.tla', '6/C05'),
 }
 NA_REASON = 'check not built yet (framework under construction); planned, see DESIGN.md section 6'
 
